@@ -108,14 +108,20 @@ CONTAINERS = [
 ]
 # accessors the property itself names as documented creating ones: (class that defines it, name)
 # -- each docstring says so (the check re-reads the docstrings from the source each run)
+# Accepted: the docstring itself says that evaluating the accessor creates / destroys content
+# (`one is created`, `destructive ... adds a chart title element`, `potentially destructive`,
+# `Creates a default core properties part`).  NOT accepted although named in the property record:
+# Font.color and Presentation.core_properties / PresentationPart.core_properties, whose docstrings
+# are silent about creation -- all three hand back a proxy object, so they are gateways (exercised,
+# reported, not judged) and need no exemption.  The translator re-reads the docstrings (fail-closed).
 DOCUMENTED = [
     ("Slide", "notes_slide"), ("SlidePart", "notes_slide"),
     ("_Background", "fill"),
-    ("Font", "color"),
     ("Chart", "chart_title"),
     ("Presentation", "notes_master"), ("PresentationPart", "notes_master"),
-    ("Presentation", "core_properties"), ("PresentationPart", "core_properties"), ("Package", "core_properties"),
+    ("Package", "core_properties"),
 ]
+DOC_SAYS_SO = ("is created", "one is created", "destructive", "Creates a default")
 
 BUILTIN_PURE = set("""len tuple list dict set frozenset isinstance issubclass int str bool float bytes sorted enumerate zip
 iter next min max sum any all range super cast type repr id abs round map filter reversed hash divmod ord chr
@@ -555,9 +561,11 @@ class Analyzer:
         return None
 
     # -- members --------------------------------------------------------------------------
-    def member_effect(self, ctx, name, call=False, store=False, kwargs=False, consts=None, node=None):
+    def member_effect(self, ctx, name, call=False, store=False, kwargs=False, consts=None, node=None,
+                      facts=frozenset()):
         """Effect of evaluating ctx_instance.name (load / call / store) with self : ctx; None if ctx
-        has no such member at all (plain instance attribute)."""
+        has no such member at all (plain instance attribute).  `facts` (children known to be present
+        on attributes of the same self) travel only along self.member evaluations."""
         r = self.U.lookup(ctx, name)
         if r is None:
             return None
@@ -593,10 +601,10 @@ class Analyzer:
                 return self.func_effect(ctx, owner, name, "set", mem["set"], None)
             return PURE            # read-only property: AttributeError, nothing happens
         if mem["kind"] in ("property", "lazyproperty"):
-            return self.func_effect(ctx, owner, name, "get", mem["get"], None)
+            return self.func_effect(ctx, owner, name, "get", mem["get"], None, facts)
         if call:
             binding = self.bind_consts(mem["get"], node, consts, skip_self=not mem.get("static"))
-            return self.func_effect(ctx, owner, name, "get", mem["get"], binding)
+            return self.func_effect(ctx, owner, name, "get", mem["get"], binding, facts)
         return PURE   # bound-method reference without a call
 
     def member_effect_at(self, ctx, owner, name, call=False, store=False, kwargs=False, consts=None, node=None):
@@ -790,15 +798,15 @@ class Analyzer:
         return eff
 
     # -- function bodies ------------------------------------------------------------------
-    def func_effect(self, ctx, owner, name, which, fn, binding):
+    def func_effect(self, ctx, owner, name, which, fn, binding, facts=frozenset()):
         bkey = tuple(sorted(binding.items())) if binding else ()
-        key = (ctx, owner, name, which, bkey)
+        key = (ctx, owner, name, which, bkey, facts)
         if key in self.inprog or key in self.done:
             return self.memo.get(key, PURE)
         self.inprog.add(key)
         try:
             mod = owner if isinstance(owner, str) else owner.__module__
-            eff = Body(self, ctx, fn, mod, binding, owner).run().via(
+            eff = Body(self, ctx, fn, mod, binding, owner, facts).run().via(
                 "%s.%s" % (getattr(owner, "__name__", owner), name))
         finally:
             self.inprog.discard(key)
@@ -828,8 +836,9 @@ class Analyzer:
 class Body:
     """Effect of one function body with self : ctx."""
 
-    def __init__(self, A, ctx, fn, module, consts, owner=None):
+    def __init__(self, A, ctx, fn, module, consts, owner=None, facts=frozenset()):
         self.A, self.U, self.ctx, self.fn, self.module = A, A.U, ctx, fn, module
+        self.facts = set(facts)     # (receiver text, child property): `receiver.child is not None` holds here
         self.owner = owner if inspect.isclass(owner) else None
         self.layer = layer_of(module)
         self.consts = dict(consts or {})
@@ -1172,9 +1181,15 @@ class Body:
             return PURE
         if isinstance(recv, ast.Call) and isinstance(recv.func, ast.Name) and recv.func.id == "super":
             return unres("super() outside a class context")
+        # a child already shown present by a dominating `if recv.child is None: return`: get_or_add finds it
+        if call and name.startswith("get_or_add_") and (ast.unparse(recv), name[len("get_or_add_"):]) in self.facts \
+                and self.all_generated_goa(recv, name):
+            return PURE
         # 1. self / cls
         if selfish:
-            e = A.member_effect(self.ctx, name, call=call, store=store, kwargs=kwargs, consts=self.consts, node=node)
+            e = A.member_effect(self.ctx, name, call=call, store=store, kwargs=kwargs, consts=self.consts, node=node,
+                                facts=frozenset(f for f in self.facts if f[0].startswith(self.selfname + "."))
+                                if self.selfname and not self.is_cls else frozenset())
             if e is not None:
                 return e
             if store:
@@ -1263,6 +1278,36 @@ class Body:
         A.unknown_calls[name] = A.unknown_calls.get(name, 0) + 1
         return unres("call .%s()" % name)
 
+    def all_generated_goa(self, recv, name):
+        """every class recv.name can resolve to has the metaclass-generated get_or_add (lookup first)"""
+        t = self.type_of(recv)
+        if isinstance(t, frozenset) and t and not any(isinstance(c, str) for c in t):
+            cands = [c for c in self.U.expand(t) if self.U.lookup(c, name) is not None]
+        else:
+            cands = [c for c in self.U.name_index.get(name, ()) if layer_of(c.__module__) <= self.layer]
+        if not cands:
+            return False
+        for c in cands:
+            g = self.A.generated(self.U.lookup(c, name)[1])
+            if g is None or g[1] != "get_or_add_child":
+                return False
+        return True
+
+    def guard_fact(self, st):
+        """`if R.x is None: return/raise` (no else) -> (text of R, x); R must be self.<attr> evaluated purely"""
+        if not isinstance(st, ast.If) or st.orelse or not st.body:
+            return None
+        if not isinstance(st.body[-1], (ast.Return, ast.Raise)):
+            return None
+        t = st.test
+        if isinstance(t, ast.Compare) and len(t.ops) == 1 and isinstance(t.ops[0], ast.Is) \
+                and isinstance(t.comparators[0], ast.Constant) and t.comparators[0].value is None \
+                and isinstance(t.left, ast.Attribute) and isinstance(t.left.value, ast.Attribute) \
+                and self.is_self(t.left.value.value):
+            if self.attr_effect(t.left.value.value, t.left.value.attr) is PURE:
+                return (ast.unparse(t.left.value), t.left.attr)
+        return None
+
     def callable_effect(self, c, m, node):
         if c == "class":
             return self.A.class_ctor_effect(m)
@@ -1287,7 +1332,18 @@ class Body:
         eff = PURE
         fn = self.fn
         call_funcs = {id(n.func) for n in ast.walk(fn) if isinstance(n, ast.Call)}
-        for node in ast.walk(fn):
+
+        def ordered_nodes():
+            # top-level statements in order, so that a guard's fact is active for what follows it
+            for d in fn.decorator_list:
+                yield from ast.walk(d)
+            yield from ast.walk(fn.args)
+            for st in fn.body:
+                yield from ast.walk(st)
+                g = self.guard_fact(st)
+                if g is not None:
+                    self.facts.add(g)
+        for node in ordered_nodes():
             if isinstance(node, ast.Call):
                 f = node.func
                 kw = bool(node.keywords)
@@ -1489,7 +1545,7 @@ def main():
             break
     else:
         unmodelled.append("effect analysis did not reach a fixpoint in 8 rounds")
-    kf_path = os.path.join(VERIF, "known_findings.json")
+    kf_path = os.environ.get("VERIF_KNOWN_FINDINGS") or os.path.join(VERIF, "known_findings.json")
     known = set()
     if os.path.exists(kf_path):
         for e in json.load(open(kf_path)):
@@ -1520,7 +1576,7 @@ def main():
                "unres": sorted(eff.unres), "flags": sorted(eff.flags),
                "why": {a: " > ".join(c) for a, c in sorted(eff.prov.items())},
                "documented": (owner.__name__, name) in documented,
-               "sig": sig, "known": sig in known, "doc": doc.strip()[:400],
+               "sig": sig, "known": sig in known, "doc": " ".join(doc.split())[:600],
                "line": getattr(fn, "lineno", 0), "file": "src/" + owner.__module__.replace(".", "/") + ".py"}
         # static part of the surface rule: collections and plain data are judged, proxies are gateways
         rec["surface"] = rk != "proxy"
@@ -1537,7 +1593,12 @@ def main():
                 e = "Creates %d" % intern(what_ids, sorted(eff.whats)[0])
             coq_rows.append("  {| acc_id := %d; acc_surface := %s; acc_documented := %s; acc_eff := %s |}" % (
                 rec["id"], "true" if rec["surface"] else "false", "true" if rec["documented"] else "false", e))
+        if rec["documented"] and not any(w in doc for w in DOC_SAYS_SO):
+            unmodelled.append("accessor %s is exempted as documented-creating but its docstring no longer says so" % sig)
         meta_rows.append(rec)
+    for d in DOCUMENTED:
+        if not any((r["owner"], r["name"]) == d for r in meta_rows):
+            unmodelled.append("documented creating accessor %s.%s not found in the source" % d)
     lines = ["(* GENERATED by tx/tx_c12.py from /repo -- do not edit *)",
              "From V.lib Require Import Prelude.",
              "From V.model Require Import Schema Access.",
